@@ -48,6 +48,9 @@ def add (m : IntMode) (a b : Nat) (site : String) : Outcome Nat :=
   | .checked => if a + b < modulus then .ok (a + b) else .panic site
   | .wrapping => .ok ((a + b) % modulus)
 
+/-- `usize::checked_add` -/
+def checkedAdd (a b : Nat) : Option Nat := if a + b < modulus then some (a + b) else none
+
 end Usz
 
 /-- `&v[a..]` -/
@@ -159,27 +162,27 @@ def numOfNat (n : Nat) : Value := .num ⟨false, n, 0⟩
 
 /-! ## strings -/
 
-/-- The index arithmetic of `core::substring` (`core.rs:1099-1131`): `st` is the start
+/-- The index arithmetic of `core::substring` (`core.rs:1101-1133`): `st` is the start
 position as `isize`, `count` the length as `usize` (`none`: to the end).  `ok none` = null. -/
-def substringAt (m : IntMode) (cs : List Char) (st : Int) (count : Option Nat) : Outcome (Option (List Char)) :=
+def substringAt (_m : IntMode) (cs : List Char) (st : Int) (count : Option Nat) : Outcome (Option (List Char)) :=
   let n := cs.length
   match count with
   | some count =>
     if st > 0 then
       let index := (st - 1).toNat
       if index < n then
-        match Usz.add m index count "core.rs:1101 index + count" with
-        | .ok e => if e ≤ n then .ok (some ((cs.drop index).take count)) else .ok none
-        | .panic site => .panic site
-        | .diverge => .diverge
+        -- `index.checked_add(count).map_or(false, |last| last <= input_string_len)` (`core.rs:1103`)
+        match Usz.checkedAdd index count with
+        | some e => if e ≤ n then .ok (some ((cs.drop index).take count)) else .ok none
+        | none => .ok none
       else .ok none
     else if st < 0 then
       let index : Int := (n : Int) + st
       if index ≥ 0 then
-        match Usz.add m index.toNat count "core.rs:1107 index as usize + count" with
-        | .ok e => if e ≤ n then .ok (some ((cs.drop index.toNat).take count)) else .ok none
-        | .panic site => .panic site
-        | .diverge => .diverge
+        -- `(index as usize).checked_add(count)…` (`core.rs:1109`)
+        match Usz.checkedAdd index.toNat count with
+        | some e => if e ≤ n then .ok (some ((cs.drop index.toNat).take count)) else .ok none
+        | none => .ok none
       else .ok none
     else .ok none
   | none =>
@@ -198,11 +201,11 @@ def strResult (o : Outcome (Option (List Char))) : Outcome Value :=
   | .panic site => .panic site
   | .diverge => .diverge
 
-/-- `length` of `substring`: null below 1, otherwise the integer part as `usize` (`core.rs:1091-1098`) -/
+/-- `length` of `substring`: null below 1, otherwise the integer part as `usize` (`core.rs:1093-1100`) -/
 def substringCount (len : Dec) : Option Nat :=
   if Dec.lt len Dec.one then none else (Dec.trunc len).toUsize?
 
-/-- `core::substring` (`core.rs:1080`) -/
+/-- `core::substring` (`core.rs:1082`) -/
 def core_substring (m : IntMode) (input start length : Value) : Outcome Value :=
   match input with
   | .str s =>
@@ -221,7 +224,7 @@ def core_substring (m : IntMode) (input start length : Value) : Outcome Value :=
     | _ => .ok .null
   | _ => .ok .null
 
-/-- `core::string_length` (`core.rs:994`) -/
+/-- `core::string_length` (`core.rs:992`) -/
 def core_string_length (input : Value) : Outcome Value :=
   match input with
   | .str s => .ok (numOfNat s.toList.length)
@@ -233,7 +236,7 @@ def core_contains (input pat : Value) : Outcome Value :=
   | .str s, .str p => .ok (.bool (findSub p.toList s.toList).isSome)
   | _, _ => .ok .null
 
-/-- `core::starts_with` (`core.rs:940`) -/
+/-- `core::starts_with` (`core.rs:938`) -/
 def core_starts_with (input pat : Value) : Outcome Value :=
   match input, pat with
   | .str s, .str p => .ok (.bool (p.toList.isPrefixOf s.toList))
@@ -245,7 +248,7 @@ def core_ends_with (input pat : Value) : Outcome Value :=
   | .str s, .str p => .ok (.bool (p.toList.isSuffixOf s.toList))
   | _, _ => .ok .null
 
-/-- `core::substring_before` (`core.rs:1155`) -/
+/-- `core::substring_before` (`core.rs:1157`) -/
 def core_substring_before (input pat : Value) : Outcome Value :=
   match input, pat with
   | .str s, .str p =>
@@ -254,7 +257,7 @@ def core_substring_before (input pat : Value) : Outcome Value :=
     | none => .ok (.str "")
   | _, _ => .ok .null
 
-/-- `core::substring_after` (`core.rs:1141`) -/
+/-- `core::substring_after` (`core.rs:1143`) -/
 def core_substring_after (input pat : Value) : Outcome Value :=
   match input, pat with
   | .str s, .str p =>
@@ -294,7 +297,7 @@ def splitLit (pat : List Char) : Nat → List Char → List Char → List (List 
 def isNameChar (c : Char) : Bool := c.isAlphanum || c == '_'
 def isDigitC (c : Char) : Bool := '0' ≤ c && c ≤ '9'
 
-/-- The first statement of `core::replace` (`core.rs:814`): `\$([1-9][0-9]*)` ↦ `${N}`. -/
+/-- The first statement of `core::replace` (`core.rs:812`): `\$([1-9][0-9]*)` ↦ `${N}`. -/
 def rewriteGroups : Nat → List Char → List Char
   | 0, cs => cs
   | _ + 1, [] => []
@@ -335,7 +338,7 @@ def expandRepl (whole : List Char) : Nat → List Char → List Char
       | [] => ['$']
     else c :: expandRepl whole fuel cs
 
-/-- The flag loop of `core::replace` (`core.rs:823-836`): the flags passed on and whether the
+/-- The flag loop of `core::replace` (`core.rs:821-834`): the flags passed on and whether the
 pattern gets quoted. -/
 def replaceFlags (flags : List Char) : List Char × Bool :=
   let kept := flags.filter (fun ch => ch == 's' || ch == 'm' || ch == 'i' || ch == 'x')
@@ -343,7 +346,7 @@ def replaceFlags (flags : List Char) : List Char × Bool :=
   let clearQ := kept.any (· != 'i')
   (kept, flagQ && !clearQ)
 
-/-- `core::replace` (`core.rs:808`) where the pattern that reaches the `regex` crate is a
+/-- `core::replace` (`core.rs:806`) where the pattern that reaches the `regex` crate is a
 literal; `none` elsewhere. -/
 def replaceValue (input pattern replacement flags : Value) : Option Value :=
   match input, pattern, replacement with
@@ -387,7 +390,7 @@ def matchesValue (input pattern flags : Value) : Option Value :=
 def core_matches (input pattern flags : Value) : Option (Outcome Value) :=
   (matchesValue input pattern flags).map .ok
 
-/-- `core::split` (`core.rs:909`), literal delimiters. -/
+/-- `core::split` (`core.rs:907`), literal delimiters. -/
 def splitValue (input delimiter : Value) : Option Value :=
   match input, delimiter with
   | .str s, .str d =>
@@ -450,7 +453,7 @@ def core_concatenate (values : List Value) : Outcome Value :=
   | some r => .ok (.list r)
   | none => .ok .null
 
-/-- the loop shared by `core::distinct_values` (`core.rs:310`) and `core::union` (`core.rs:1247`) -/
+/-- the loop shared by `core::distinct_values` (`core.rs:310`) and `core::union` (`core.rs:1249`) -/
 def distinctInto (result : List Value) : List Value → List Value
   | [] => result
   | item :: rest =>
@@ -507,7 +510,7 @@ def core_list_contains (list element : Value) : Outcome Value :=
   | .list items => .ok (.bool (items.any (fun item => eqB item element)))
   | _ => .ok .null
 
-/-- `core::reverse` (`core.rs:866`) -/
+/-- `core::reverse` (`core.rs:864`) -/
 def core_reverse (list : Value) : Outcome Value :=
   match list with
   | .list items => .ok (.list items.reverse)
@@ -568,14 +571,14 @@ def core_insert_before (m : IntMode) (list position newItem : Value) : Outcome V
     | _ => .ok .null
   | _ => .ok .null
 
-/-- index arithmetic of `core::remove` (`core.rs:785-801`) -/
+/-- index arithmetic of `core::remove` (`core.rs:783-799`) -/
 def removeAt (m : IntMode) (items : List Value) (pos : Bool × Nat) : Outcome (Option (List Value)) :=
   match pos with
   | (false, index0) =>
-    match Usz.sub m index0 1 "core.rs:787 index -= 1" with
+    match Usz.sub m index0 1 "core.rs:785 index -= 1" with
     | .ok index =>
       if index < items.length then
-        match vecRemove items index "core.rs:789 items.remove" with
+        match vecRemove items index "core.rs:787 items.remove" with
         | .ok r => .ok (some r)
         | .panic site => .panic site
         | .diverge => .diverge
@@ -584,9 +587,9 @@ def removeAt (m : IntMode) (items : List Value) (pos : Bool × Nat) : Outcome (O
     | .diverge => .diverge
   | (true, index) =>
     if index ≤ items.length then
-      match Usz.sub m items.length index "core.rs:797 items.len() - index" with
+      match Usz.sub m items.length index "core.rs:795 items.len() - index" with
       | .ok idx =>
-        match vecRemove items idx "core.rs:797 items.remove" with
+        match vecRemove items idx "core.rs:795 items.remove" with
         | .ok r => .ok (some r)
         | .panic site => .panic site
         | .diverge => .diverge
@@ -594,7 +597,7 @@ def removeAt (m : IntMode) (items : List Value) (pos : Bool × Nat) : Outcome (O
       | .diverge => .diverge
     else .ok none
 
-/-- `core::remove` (`core.rs:782`) -/
+/-- `core::remove` (`core.rs:780`) -/
 def core_remove (m : IntMode) (list position : Value) : Outcome Value :=
   match list with
   | .list items =>
@@ -606,14 +609,14 @@ def core_remove (m : IntMode) (list position : Value) : Outcome Value :=
     | _ => .ok .null
   | _ => .ok .null
 
-/-- index arithmetic of `core::sublist2` (`core.rs:1026-1042`) -/
+/-- index arithmetic of `core::sublist2` (`core.rs:1024-1040`) -/
 def sublist2At (m : IntMode) (items : List Value) (pos : Bool × Nat) : Outcome (Option (List Value)) :=
   match pos with
   | (false, position) =>
-    match Usz.sub m position 1 "core.rs:1028 position - 1" with
+    match Usz.sub m position 1 "core.rs:1026 position - 1" with
     | .ok index =>
       if index < items.length then
-        match sliceFrom items index "core.rs:1030 items[index..]" with
+        match sliceFrom items index "core.rs:1028 items[index..]" with
         | .ok r => .ok (some r)
         | .panic site => .panic site
         | .diverge => .diverge
@@ -622,9 +625,9 @@ def sublist2At (m : IntMode) (items : List Value) (pos : Bool × Nat) : Outcome 
     | .diverge => .diverge
   | (true, index) =>
     if index ≤ items.length then
-      match Usz.sub m items.length index "core.rs:1038 items.len() - index" with
+      match Usz.sub m items.length index "core.rs:1036 items.len() - index" with
       | .ok a =>
-        match sliceFrom items a "core.rs:1038 items[items.len() - index..]" with
+        match sliceFrom items a "core.rs:1036 items[items.len() - index..]" with
         | .ok r => .ok (some r)
         | .panic site => .panic site
         | .diverge => .diverge
@@ -632,7 +635,7 @@ def sublist2At (m : IntMode) (items : List Value) (pos : Bool × Nat) : Outcome 
       | .diverge => .diverge
     else .ok none
 
-/-- `core::sublist2` (`core.rs:1023`) -/
+/-- `core::sublist2` (`core.rs:1021`) -/
 def core_sublist2 (m : IntMode) (list position : Value) : Outcome Value :=
   match list with
   | .list items =>
@@ -644,28 +647,39 @@ def core_sublist2 (m : IntMode) (list position : Value) : Outcome Value :=
     | _ => .ok .null
   | _ => .ok .null
 
-/-- index arithmetic of `core::sublist3` (`core.rs:1052-1072`) -/
+/-- index arithmetic of `core::sublist3` (`core.rs:1050-1072`): `first.checked_add(length)`,
+and a negative position is tested against the length before the subtraction -/
 def sublist3At (m : IntMode) (items : List Value) (pos : Bool × Nat) (len : Nat) : Outcome (Option (List Value)) :=
-  let first : Outcome Nat :=
+  let first : Outcome (Option Nat) :=
     match pos with
-    | (false, position) => Usz.sub m position 1 "core.rs:1055 position - 1"
-    | (true, position) => Usz.sub m items.length position "core.rs:1064 items.len() - position"
+    | (false, position) =>
+      match Usz.sub m position 1 "core.rs:1053 position - 1" with
+      | .ok f => .ok (some f)
+      | .panic site => .panic site
+      | .diverge => .diverge
+    | (true, position) =>
+      if position ≤ items.length then
+        match Usz.sub m items.length position "core.rs:1064 items.len() - position" with
+        | .ok f => .ok (some f)
+        | .panic site => .panic site
+        | .diverge => .diverge
+      else .ok none
   match first with
-  | .ok first =>
-    match Usz.add m first len "core.rs:1056/1065 first + length" with
-    | .ok last =>
+  | .ok (some first) =>
+    match Usz.checkedAdd first len with
+    | some last =>
       if first < items.length ∧ last ≤ items.length then
-        match slice items first last "core.rs:1058/1067 items[first..last]" with
+        match slice items first last "core.rs:1056/1067 items[first..last]" with
         | .ok r => .ok (some r)
         | .panic site => .panic site
         | .diverge => .diverge
       else .ok none
-    | .panic site => .panic site
-    | .diverge => .diverge
+    | none => .ok none
+  | .ok none => .ok none
   | .panic site => .panic site
   | .diverge => .diverge
 
-/-- `core::sublist3` (`core.rs:1048`) -/
+/-- `core::sublist3` (`core.rs:1046`) -/
 def core_sublist3 (m : IntMode) (list position length : Value) : Outcome Value :=
   match list with
   | .list items =>
@@ -685,17 +699,15 @@ def core_sublist3 (m : IntMode) (list position length : Value) : Outcome Value :
 
 /-! ## aggregates -/
 
-/-- the loop of `core::max` over numbers (`core.rs:536`): `null` items are skipped -/
+/-- the loop of `core::max` over numbers (`core.rs:536`) -/
 def maxNumLoop : List Value → Dec → Option Dec
   | [], mx => some mx
   | .num v :: rest, mx => maxNumLoop rest (if Dec.cmp v mx == .gt then v else mx)
-  | .null :: rest, mx => maxNumLoop rest mx
   | _ :: _, _ => none
 
 def maxStrLoop : List Value → String → Option String
   | [], mx => some mx
   | .str v :: rest, mx => maxStrLoop rest (if compare v mx == .gt then v else mx)
-  | .null :: rest, mx => maxStrLoop rest mx
   | _ :: _, _ => none
 
 /-- `core::max` (`core.rs:530`) -/
@@ -722,7 +734,7 @@ def minStrLoop : List Value → String → Option String
   | .str v :: rest, mn => minStrLoop rest (if compare v mn == .lt then v else mn)
   | _ :: _, _ => none
 
-/-- `core::min` (`core.rs:608`) -/
+/-- `core::min` (`core.rs:606`) -/
 def core_min (values : List Value) : Outcome Value :=
   match values with
   | [] => .ok .null
@@ -742,7 +754,7 @@ def numbersOf : List Value → Option (List Dec)
   | .num n :: rest => (numbersOf rest).map (n :: ·)
   | _ :: _ => none
 
-/-- `core::sum` (`core.rs:1003`) -/
+/-- `core::sum` (`core.rs:1001`) -/
 def core_sum (values : List Value) : Outcome Value :=
   match values with
   | [] => .ok .null
@@ -752,7 +764,7 @@ def core_sum (values : List Value) : Outcome Value :=
     | none => .ok .null
   | _ :: _ => .ok .null
 
-/-- `core::mean` (`core.rs:570`) -/
+/-- `core::mean` (`core.rs:568`) -/
 def core_mean (values : List Value) : Outcome Value :=
   match values with
   | [] => .ok .null
@@ -771,7 +783,7 @@ def sortBy {α : Type} (cmp : α → α → Ordering) : List α → List α
   | [] => []
   | x :: xs => insertBy cmp x (sortBy cmp xs)
 
-/-- `core::median` (`core.rs:586`) -/
+/-- `core::median` (`core.rs:584`) -/
 def core_median (values : List Value) : Outcome Value :=
   match values with
   | [] => .ok .null
@@ -782,19 +794,19 @@ def core_median (values : List Value) : Outcome Value :=
       let list := sortBy Dec.cmp ns
       let index := values.length / 2
       if list.length % 2 == 0 then
-        match Usz.sub .checked index 1 "core.rs:601 index - 1" with
+        match Usz.sub .checked index 1 "core.rs:599 index - 1" with
         | .ok i1 =>
           match list[i1]?, list[index]? with
           | some a, some b => .ok (.num (Dec.divR (Dec.addR a b) ⟨false, 2, 0⟩))
-          | _, _ => .panic "core.rs:601 list[index]"
+          | _, _ => .panic "core.rs:599 list[index]"
         | .panic site => .panic site
         | .diverge => .diverge
       else
         match list[index]? with
         | some a => .ok (.num a)
-        | none => .panic "core.rs:603 list[index]"
+        | none => .panic "core.rs:601 list[index]"
 
-/-- the frequency loop of `core::mode` (`core.rs:660`): the last pair is the current run -/
+/-- the frequency loop of `core::mode` (`core.rs:658`): the last pair is the current run -/
 def modeRuns : List Dec → List (Nat × Dec) → List (Nat × Dec)
   | [], acc => acc
   | x :: xs, [] => modeRuns xs [(1, x)]
@@ -810,7 +822,7 @@ def modeCmp (x y : Nat × Dec) : Ordering :=
   | .eq => Dec.cmp x.2 y.2
   | o => o
 
-/-- `core::mode` (`core.rs:644`) -/
+/-- `core::mode` (`core.rs:642`) -/
 def core_mode (values : List Value) : Outcome Value :=
   match values with
   | [] => .ok (.list [])
@@ -820,10 +832,10 @@ def core_mode (values : List Value) : Outcome Value :=
     | some ns =>
       let runs := sortBy modeCmp (modeRuns (sortBy Dec.cmp ns) [])
       match runs with
-      | [] => .panic "core.rs:679 mode.get(0).unwrap()"
+      | [] => .panic "core.rs:677 mode.get(0).unwrap()"
       | (mx, _) :: _ => .ok (.list ((runs.filter (fun r => r.1 == mx)).map (fun r => .num r.2)))
 
-/-- `core::stddev` (`core.rs:953`) -/
+/-- `core::stddev` (`core.rs:951`) -/
 def core_stddev (values : List Value) : Outcome Value :=
   if values.length < 2 then .ok .null
   else
@@ -853,7 +865,7 @@ def core_get_entries (context : Value) : Outcome Value :=
   | .ctx es => .ok (.list (es.map (fun e => .ctx [("key", .str e.1), ("value", e.2)])))
   | _ => .ok .null
 
-/-- `core::not` (`core.rs:707`) -/
+/-- `core::not` (`core.rs:705`) -/
 def core_not (negand : Value) : Outcome Value :=
   match negand with
   | .bool v => .ok (.bool (!v))
@@ -892,7 +904,7 @@ def parseNumber (cs : List Char) : Option Dec :=
 
 def replaceAllChars (pat rep cs : List Char) : List Char := replaceAllLit pat rep (cs.length + 1) cs
 
-/-- `core::number` (`core.rs:717`) -/
+/-- `core::number` (`core.rs:715`) -/
 def numberValue (from_ grouping decimal : Value) : Value :=
   let convert (cs : List Char) : Value :=
     match parseNumber cs with
@@ -993,7 +1005,7 @@ def feelStringItems : List Value → Option (List (List Char))
     | _, _ => none
 end
 
-/-- `core::string` (`core.rs:985`); `none` where the text needs the number / temporal printers -/
+/-- `core::string` (`core.rs:983`); `none` where the text needs the number / temporal printers -/
 def stringValue (value : Value) : Option Value :=
   match value with
   | .null => some .null
